@@ -635,6 +635,112 @@ def r10(ctx, R):
         raise AnalysisError(f'C12.R10: only {n_dec} Newton loops decided')
 
 
+class _EvalFCall(ast.NodeTransformer):
+    """self.eval_f(<iterate>, ..) -> the name __F__ (the right-hand side of the class itself, whatever it is)"""
+
+    def __init__(self, uname):
+        self.uname = uname
+
+    def visit_Call(self, n):
+        self.generic_visit(n)
+        if ast.unparse(n.func) == 'self.eval_f' and n.args and isinstance(n.args[0], ast.Name) and n.args[0].id == self.uname:
+            return ast.copy_location(ast.Name(id='__F__', ctx=ast.Load()), n)
+        return n
+
+
+def _single_locals(fn, skip):
+    counts = {}
+    for s in ast.walk(fn):
+        if isinstance(s, ast.Assign) and len(s.targets) == 1 and isinstance(s.targets[0], ast.Name):
+            counts[s.targets[0].id] = counts.get(s.targets[0].id, 0) + 1
+        elif isinstance(s, (ast.AugAssign,)) and isinstance(s.target, ast.Name):
+            counts[s.target.id] = counts.get(s.target.id, 0) + 2
+    return {s.targets[0].id: s.value for s in ast.walk(fn) if isinstance(s, ast.Assign) and len(s.targets) == 1 and isinstance(s.targets[0], ast.Name) and counts[s.targets[0].id] == 1 and s.targets[0].id not in skip}
+
+
+def _rhs_parts(fn):
+    """component -> expressions eval_f assigns to it: f[:] / f.impl[:] / f.comp1[:] ..; allocations are not right-hand sides"""
+    parts = {}
+    for s in ast.walk(fn):
+        if isinstance(s, ast.Assign) and len(s.targets) == 1:
+            t = s.targets[0]
+            base = t.value if isinstance(t, ast.Subscript) else t
+            txt = ast.unparse(base)
+            if txt in ('f', 'f.impl', 'f.expl', 'f.comp1', 'f.comp2', 'f.comp3'):
+                v = s.value
+                if isinstance(v, ast.Call) and ast.unparse(v.func).split('.')[-1] in ('dtype_f', 'f_init') or ast.unparse(v) in ('self.f_init',):
+                    continue
+                parts.setdefault(txt.split('.')[-1] if '.' in txt else 'full', []).append(v)
+    return parts
+
+
+@rule('C12', 'C12.R11', 'Newton solves the equation of eval_f: the residual `g` of a Newton loop in solve_system* is u - factor*F(u) - rhs with F the part of the right-hand side that eval_f of the SAME class (through the MRO) assigns to the matching component (impl / comp1 / comp2 / the whole f) - compared symbolically, element-wise view, operators as linear atoms; a coefficient changed in g AND dg alike (invisible to R10) converges to the solution of another equation than the one the sweeper integrates', floor=10)
+def r11(ctx, R):
+    import sympy as sp
+    repo = ctx.repo
+    U, RHS = sp.Symbol('u'), sp.Symbol('rhs')
+    n_dec = 0
+    for ci in _problems(repo):
+        for name, fn in ci.methods.items():
+            if not name.startswith('solve_system') or len(fn.args.args) < 3:
+                continue
+            for loop in [l for l in ast.walk(fn) if isinstance(l, (ast.While, ast.For))]:
+                body = [s for s in ast.walk(loop) if isinstance(s, ast.Assign) and len(s.targets) == 1 and isinstance(s.targets[0], ast.Name)]
+                gs = [s for s in body if s.targets[0].id == 'g']
+                if len(gs) != 1:
+                    continue
+                w = f'{ci.module.relpath}:{ci.name}.{name}'
+                c = f'{ci.name}.{name} :: g = u - factor*F(u) - rhs with F from eval_f'
+                upd = [s.target.id for s in ast.walk(loop) if isinstance(s, ast.AugAssign) and isinstance(s.target, ast.Name)] + [s.targets[0].id for s in body if isinstance(s.value, ast.BinOp) and isinstance(s.value.left, ast.Name) and s.value.left.id == s.targets[0].id]
+                upd = [x for x in upd if x not in ('n', 'res', 'it', 'k', 'niter', 'newton_iter')]
+                ef = repo.resolve(ci, 'eval_f')
+                if not upd or not ef:
+                    R.note(c, w, 'not decided: Newton update or eval_f not recognised')
+                    continue
+                uname = upd[0]
+                fac = sp.Symbol(fn.args.args[2].arg)
+                efn = ef[1]
+                parts = _rhs_parts(efn)
+                comp = {'solve_system': 'impl', 'solve_system_1': 'comp1', 'solve_system_2': 'comp2', 'solve_system_3': 'comp3'}.get(name)
+                cands = parts.get(comp) or (parts.get('full') if name == 'solve_system' else None)
+                tr = _EvalFCall(uname)
+                local = {k: tr.visit(ast.parse(ast.unparse(v), mode='eval').body) for k, v in _single_locals(fn, ('g', 'dg', uname)).items()}
+                try:
+                    G = _newton_sym(tr.visit(ast.parse(ast.unparse(gs[0].value), mode='eval').body), uname, local)
+                except (_Unk, RecursionError) as e:
+                    R.note(c, w, f'not decided: residual outside the vocabulary ({str(e)[:50]})')
+                    continue
+                F0 = sp.Symbol('__F__')
+                if G.has(F0):
+                    # the residual is written in terms of self.eval_f(iterate): the equation is that of eval_f by construction
+                    R.fn(w)
+                    n_dec += 1
+                    d = sp.simplify(sp.expand(G - (U - fac * F0 - RHS)))
+                    R.check(d == 0, c, w, f'u - {fac}*eval_f(u) - rhs', f'g - (..) = {str(d)[:140]}' if d != 0 else 'equal')
+                    continue
+                if not cands:
+                    R.note(c, w, f'not decided: eval_f of {ef[0].name} assigns no `{comp or "f"}` part in a single expression')
+                    continue
+                euname = efn.args.args[1].arg
+                elocal = _single_locals(efn, (euname,))
+                Fs = []
+                for e in cands:
+                    try:
+                        Fs.append(_newton_sym(e, euname, elocal))
+                    except (_Unk, RecursionError):
+                        pass
+                if not Fs:
+                    R.note(c, w, 'not decided: right-hand side of eval_f outside the vocabulary')
+                    continue
+                R.fn(w)
+                n_dec += 1
+                ds = [sp.simplify(sp.expand(G - (U - fac * F - RHS))) for F in Fs]
+                ok = any(d == 0 for d in ds)
+                R.check(ok, c, w, f'u - {fac}*({str(Fs[-1])[:110]}) - rhs', f'g - (u - {fac}*F - rhs) = {str(ds[-1])[:140]}' if not ok else 'equal')
+    if n_dec < 10:
+        raise AnalysisError(f'C12.R11: only {n_dec} Newton residuals decided')
+
+
 @rule('C12', 'C12.R9', 'eval_f and the solver of one class embed the inner points in the SAME boundary values: where both prepare a scratch attribute of self (uext[0], uext[-1], ..), the entries with a fixed index are computed by the same expressions (found and repaired F29 on the semi-implicit Allen-Cahn front)', floor=3)
 def r9(ctx, R):
     from ..inline import facts as _facts
